@@ -1552,7 +1552,7 @@ yang_ver_stmt :
 units_stmt :
     kywd_units token_string statement_end {        
         l := yylex.(*lexer)        
-        l.builder.Units(l.stack.peek(), $2)
+        l.builder.Units(l.stack.peek(), tokenString($2))
         if chkErr2(l, "units", $3) {
             goto ret1
         }
